@@ -224,6 +224,17 @@ def invalid_declarations():
                 es.ParseString('%s = 1.0\nx = 2\nMaxTime = 1' % nm)
                 es.SolveEquation()
             expect('variable-name:' + nm + ('' if red else ':reduction-off'), mk, lambda: box['es'])
+    for red in (True, False):
+        for kind, text in (('simultaneous', 'x = 1.\nx = 2.\ny = x + y/2\nMaxTime = 2'), ('lagged', 'y = 0.5*y + 1\nL = y(k-1)\nL = y(k-1)\nMaxTime = 2'),
+                           ('exogenous', 'y = 0.5*y + G\nMaxTime = 2\nexogenous\nG = [1., 2., 3.]\nG = [2., 2., 2.]'), ('mixed', 'y = 0.5*y + 1\nz = y(k-1)\nz = y + 1\nMaxTime = 2')):
+            box = {}
+
+            def mk(text=text, red=red):
+                es = EquationSolver(run_equation_reduction=red)
+                box['es'] = es
+                es.ParseString(text)
+                es.SolveEquation()
+            expect('variable-defined-twice:%s%s' % (kind, '' if red else ':reduction-off'), mk, lambda: box['es'])
     bad_tokens = sorted((set(keyword.kwlist) | set(dir(builtins)) | {'self', 'None'}) - {'float', 'max', 'min', 'sum', 'pow', 'abs', 'round'})
     for tok in bad_tokens:
         if not tok.isidentifier():
@@ -447,7 +458,7 @@ def run(tier, seed):
     chk.bounds = {'non-convergence / evaluation errors': '%d cases: blocks %r x iteration cap; 2 periods; start values and exogenous symbolic in [-100,100]' % (len(ncs), sorted(BLOCKS)),
                   'contraction => success': '%d cases x = A*x + B, A in {0.8,-0.8,0.5,...}, B and x(0) symbolic in the stated box (quick: A in {-0.8, 0.5, -0.5, 0.25} with boxes +-1000/+-100; A = 0.8 needs ~130 damped sweeps and is explored in the thorough tier only), DEFAULT cap 400, tolerance >= %g, one variable'
                   % (len(ccs), min(c[1] for c in ccs)),
-                  'invalid declarations': 'every keyword / builtin / math name / k / self / None as variable name and as token, with equation reduction on and off; duplicate country / sector; "__" in local '
+                  'invalid declarations': 'every keyword / builtin / math name / k / self / None as variable name and as token, with equation reduction on and off; a variable defined twice (simultaneous / lagged / exogenous / mixed); duplicate country / sector; "__" in local '
                   'name and sector code; market without / with ambiguous suppliers (goods and labour); cross-currency flow and cross-currency supplier without external sector; financial asset market without / with two issuers; each model-level '
                   'scenario also with another model started / half built / built-and-solved after every one of its construction calls'}
     chk.assumptions = ['sweep count is read from the public step trace (TraceStep)', 'TimeSeriesHolder.GenerateCSVtext stubbed to "" in E2 runs']
